@@ -47,7 +47,7 @@ func capsFromMask(mask int) []string {
 	return out
 }
 
-var replyAltNames = []string{"ok", "4yz", "5yz", "drop", "garbage-or-multiline"}
+var replyAltNames = []string{"ok", "4yz", "5yz", "drop", "garbage-or-multiline", "ok-then-write-fails"}
 
 // stdScript answers every event through the chooser with the alphabet {default, 4yz, 5yz, drop}.
 func stdScript(c *vf.Chooser) func(s *refsmtp.Session, ev *refsmtp.Event, def refsmtp.Action) refsmtp.Action {
@@ -76,11 +76,22 @@ func stdScriptM(c *vf.Chooser) func(s *refsmtp.Session, ev *refsmtp.Event, def r
 
 // stdScriptN: n=4 → {ok,4yz,5yz,drop}; n=5 adds a garbage (non-SMTP) reply.
 func stdScriptN(c *vf.Chooser, n int) func(s *refsmtp.Session, ev *refsmtp.Event, def refsmtp.Action) refsmtp.Action {
+	return stdScriptB(c, n, nil)
+}
+
+// stdScriptB: n=6 adds "reply ok, then the client's next write fails" (breakWrites is called to arm the fault).
+func stdScriptB(c *vf.Chooser, n int, breakWrites func()) func(s *refsmtp.Session, ev *refsmtp.Event, def refsmtp.Action) refsmtp.Action {
 	return func(s *refsmtp.Session, ev *refsmtp.Event, def refsmtp.Action) refsmtp.Action {
 		if def.Kind != refsmtp.ActReply {
 			return def
 		}
 		switch c.Choose(ev.Pos(), n) {
+		case 5:
+			// the reply is fine, but the transport breaks for the client's next write
+			if breakWrites != nil {
+				breakWrites()
+			}
+			return def
 		case 4:
 			return refsmtp.Action{Kind: refsmtp.ActRaw, Raw: "garbage that is no SMTP reply\r\n"}
 		case 1:
